@@ -522,6 +522,7 @@ def exp_generic(ctx):
         if roles: break
     if roles is None: return inconc('generic exp check: no (accumulator, base, remaining exponent) roles with A·V^G ≡ B^E among the loop state %s' % (comps,))
     A, V, G = roles
+    gmin = min((sn[G[1]] if G[0] == 'c' else (e >> sn[G[1]])) for b, e, sn in S)       # smallest remaining exponent seen at the header: candidate lower bound
     POW = z3.Function('POW', z3.IntSort(), z3.IntSort(), z3.IntSort())
     B0 = core.bv64('B'); E0 = core.bv64('E'); HA = core.bv64('acc_h'); HV = core.bv64('base_h'); HG = core.bv64('exp_h')
     counters = [G[1]] if G[0] == 'shr' else []
@@ -555,52 +556,68 @@ def exp_generic(ctx):
         if not is_c(c): raise Unsupported('symbolic counter')
         return z3.LShR(E0, bvv(c, 64)) if c < 64 else bvv(0, 64)
     def axioms_at(bt, gt):
+        def unfold(b, e):
+            bb = (b * b) % P; hb = e / 2
+            return [z3.Implies(e == 0, POW(b % P, e) == 1), z3.Implies(z3.And(e > 0, hb == 0), POW(b % P, e) == b % P),
+                    z3.Implies(z3.And(e > 0, hb > 0, e % 2 == 1), (POW(b % P, e) - b * POW(bb, hb)) % P == 0),
+                    z3.Implies(z3.And(e > 0, hb > 0, e % 2 == 0), (POW(b % P, e) - POW(bb, hb)) % P == 0)]
         def ax(tr):
-            b = tr.val(bt); e = tr.val(gt); bb = (b * b) % P; hb = e / 2
-            return z3.And(z3.Implies(e == 0, POW(b % P, e) == 1), z3.Implies(z3.And(e > 0, hb == 0), POW(b % P, e) == b % P),
-                          z3.Implies(z3.And(e > 0, hb > 0, e % 2 == 1), (POW(b % P, e) - b * POW(bb, hb)) % P == 0),
-                          z3.Implies(z3.And(e > 0, hb > 0, e % 2 == 0), (POW(b % P, e) - POW(bb, hb)) % P == 0))
+            # the defining recursion of POW, unfolded at the header state and once more at (base^2, remaining >> 1): an exit may follow a last squaring
+            b = tr.val(bt); e = tr.val(gt); bb = (b * b) % P
+            return z3.And(unfold(b, e) + unfold(bb, e / 2))
         return ax
     ONE = [dict(limb_min=0, abstract=False, logic=None, share=1.0)]
-    nq = 0; nb = ne = 0
-    # entry
-    for p_ in run('entry'):
-        if p_.status != 'ok': return confirm_native(ctx, 'exp', 'exp before its loop: %s' % p_.result, path_model(p_.pc))
-        kind, vals, asm, narr = p_.result
-        if kind == 'exit':
-            r = smt.prove(lambda tr: (tr.val(tobv(vals, 64)) - POW(tr.val(B0) % P, tr.val(E0))) % P == 0, assumptions=list(p_.pc) + asm + [axioms_at(B0, E0)], timeout=60, variants=ONE, bitprecise=False); nq += 1
-            if r.status == 'sat': return confirm_native(ctx, 'exp', 'exp returns without entering its loop with a value that is not B^E', r.model)
-            if r.status != 'unsat': return inconc('generic exp check: early return: %s' % r.status)
-            continue
-        try: g0 = gterm(vals, None)
-        except (Unsupported, KeyError): return inconc('generic exp check: entry state incomplete')
-        r = smt.prove(lambda tr: z3.And((tr.val(tobv(vals[A], 64)) - 1) % P == 0, (tr.val(tobv(vals[V], 64)) - tr.val(B0)) % P == 0, tr.val(g0) == tr.val(E0)), assumptions=list(p_.pc) + asm, timeout=60, bitprecise=False); nq += 1
-        if r.status == 'sat': return confirm_native(ctx, 'exp', 'exp does not enter its loop with (accumulator, base, remaining exponent) = (1, B, E)', r.model)
-        if r.status != 'unsat': return inconc('generic exp check: entry: %s' % r.status)
-    # step
-    for cv in (range(0, 65) if counters else [None]):
-        gH = HG if G[0] == 'c' else (z3.LShR(E0, bvv(cv, 64)) if cv < 64 else bvv(0, 64))
-        for p_ in run('step', cv):
-            if p_.status != 'ok': return confirm_native(ctx, 'exp', 'exp loop body: %s' % p_.result, path_model(p_.pc))
+    def attempt(nz):
+        """nz: strengthen the invariant by 'remaining exponent != 0 at the header' (needed by loops that peel the top bit); it is then proved at entry and on every back edge"""
+        nq = 0; nb = ne = 0
+        # entry
+        for p_ in run('entry'):
+            if p_.status != 'ok': return confirm_native(ctx, 'exp', 'exp before its loop: %s' % p_.result, path_model(p_.pc))
             kind, vals, asm, narr = p_.result
-            if narr == 0: continue
-            base = list(p_.pc) + asm + [axioms_at(HV, gH)]
-            feas = smt.prove(lambda tr: z3.BoolVal(False), assumptions=list(p_.pc) + asm, timeout=20, bitprecise=False); nq += 1
-            if feas.status == 'unsat': continue
-            if kind == 'back':
-                nb += 1
-                try: a2 = tobv(vals[A], 64); v2 = tobv(vals[V], 64); g2 = gterm(vals, None)
-                except (Unsupported, KeyError) as ex: return inconc('generic exp check: back-edge state incomplete (%s)' % ex)
-                def goal(tr):
-                    b = tr.val(HV); e = tr.val(gH); bb = (b * b) % P
-                    return z3.And(tr.val(g2) == e / 2, (tr.val(v2) - b * b) % P == 0,
-                                  z3.Implies(tr.val(v2) % P == bb, (tr.val(a2) * POW(tr.val(v2) % P, tr.val(g2)) - tr.val(HA) * POW(b % P, e)) % P == 0))
-            else:
-                ne += 1; r2 = tobv(vals, 64)
-                def goal(tr): return (tr.val(r2) - tr.val(HA) * POW(tr.val(HV) % P, tr.val(gH))) % P == 0
-            r = smt.prove(goal, assumptions=base, timeout=90, variants=ONE, bitprecise=False); nq += 1
-            if r.status == 'sat': return confirm_native(ctx, 'exp', 'exp loop body does not preserve accumulator·POW(base, remaining exponent) from state %s' % r.model, r.model)
-            if r.status != 'unsat': return inconc('generic exp check: %s edge%s: %s' % (kind, '' if cv is None else ' (counter %d)' % cv, r.info[-160:]))
+            if kind == 'exit':
+                r = smt.prove(lambda tr: (tr.val(tobv(vals, 64)) - POW(tr.val(B0) % P, tr.val(E0))) % P == 0, assumptions=list(p_.pc) + asm + [axioms_at(B0, E0)], timeout=60, variants=ONE, bitprecise=False); nq += 1
+                if r.status == 'sat': return confirm_native(ctx, 'exp', 'exp returns without entering its loop with a value that is not B^E', r.model)
+                if r.status != 'unsat': return inconc('generic exp check: early return: %s' % r.status)
+                continue
+            try: g0 = gterm(vals, None)
+            except (Unsupported, KeyError): return inconc('generic exp check: entry state incomplete')
+            r = smt.prove(lambda tr: z3.And((tr.val(tobv(vals[A], 64)) - 1) % P == 0, (tr.val(tobv(vals[V], 64)) - tr.val(B0)) % P == 0, tr.val(g0) == tr.val(E0), (tr.val(g0) >= gmin) if nz else z3.BoolVal(True)), assumptions=list(p_.pc) + asm, timeout=60, bitprecise=False); nq += 1
+            if r.status == 'sat': return confirm_native(ctx, 'exp', 'exp does not enter its loop with (accumulator, base, remaining exponent) = (1, B, E)', r.model)
+            if r.status != 'unsat': return inconc('generic exp check: entry: %s' % r.status)
+        # step
+        import time as _t
+        deadline = _t.time() + (1800 if ctx.thorough else 240)
+        for cv in (range(0, 65) if counters else [None]):
+            if _t.time() > deadline: return inconc('generic exp check: time budget exhausted at counter %s of 64 (every counter value is a separate inductive step)' % cv)
+            gH = HG if G[0] == 'c' else (z3.LShR(E0, bvv(cv, 64)) if cv < 64 else bvv(0, 64))
+            for p_ in run('step', cv):
+                if p_.status != 'ok': return confirm_native(ctx, 'exp', 'exp loop body: %s' % p_.result, path_model(p_.pc))
+                kind, vals, asm, narr = p_.result
+                if narr == 0: continue
+                inv_nz = [lambda tr: tr.val(gH) >= gmin] if nz else []
+                base = list(p_.pc) + asm + [axioms_at(HV, gH)] + inv_nz
+                feas = smt.prove(lambda tr: z3.BoolVal(False), assumptions=list(p_.pc) + asm + inv_nz, timeout=20, bitprecise=False); nq += 1
+                if feas.status == 'unsat': continue
+                if kind == 'back':
+                    nb += 1
+                    try: a2 = tobv(vals[A], 64); v2 = tobv(vals[V], 64); g2 = gterm(vals, None)
+                    except (Unsupported, KeyError) as ex: return inconc('generic exp check: back-edge state incomplete (%s)' % ex)
+                    def goal(tr):
+                        b = tr.val(HV); e = tr.val(gH); bb = (b * b) % P
+                        return z3.And(tr.val(g2) == e / 2, (tr.val(v2) - b * b) % P == 0, (tr.val(g2) >= gmin) if nz else z3.BoolVal(True),
+                                      z3.Implies(tr.val(v2) % P == bb, (tr.val(a2) * POW(tr.val(v2) % P, tr.val(g2)) - tr.val(HA) * POW(b % P, e)) % P == 0))
+                else:
+                    ne += 1; r2 = tobv(vals, 64)
+                    def goal(tr): return (tr.val(r2) - tr.val(HA) * POW(tr.val(HV) % P, tr.val(gH))) % P == 0
+                r = smt.prove(goal, assumptions=base, timeout=90, variants=ONE, bitprecise=False); nq += 1
+                if r.status == 'sat': return confirm_native(ctx, 'exp', 'exp loop body does not preserve accumulator·POW(base, remaining exponent) from state %s (%s edge, counter %s, lower bound %s)' % (r.model, kind, cv, gmin if nz else None), r.model)
+                if r.status != 'unsat': return inconc('generic exp check: %s edge%s: %s' % (kind, '' if cv is None else ' (counter %d)' % cv, r.info[-160:]))
+        return ('done', nq, nb, ne)
+    # counter-driven loops need the lower bound on the remaining exponent from the start (the header is only reached while bits remain)
+    r_ = attempt(False) if not counters else attempt(True)
+    if not counters and not isinstance(r_, tuple) and r_['status'] != 'violation': r_ = attempt(True)
+    if not isinstance(r_, tuple): return r_
+    _, nq, nb, ne = r_
     if not (nb and ne): return inconc('generic exp check: %d back-edge and %d exit paths' % (nb, ne))
     return ok('structure-independent check: roles accumulator=%s base=%s remaining exponent=%s read off %d concrete header states; entry (1,B,E); %d back-edge / %d exit path(s) preserve accumulator·POW(base, remaining); %d queries'
               % (A, V, (G[1] if G[0] == 'c' else 'E >> %s' % (G[1],)), len(S), nb, ne, nq), sample=dict(part='exp-generic', roles=[str(A), str(V), str(G)]))
@@ -657,7 +674,7 @@ def confirm_native(ctx, which, text, model):
 def obligations(ctx):
     from . import C03
     import os
-    obs = [Ob('inv/refusal', ob_inv_refusal), Ob('inv/entry', ob_inv_entry), Ob('inv/step', ob_inv_step), Ob('inv+div/wrappers', ob_inv_wrapper), Ob('exp', ob_exp)]
+    obs = [Ob('inv/refusal', ob_inv_refusal), Ob('inv/entry', ob_inv_entry), Ob('inv/step', ob_inv_step), Ob('inv+div/wrappers', ob_inv_wrapper), Ob('exp', ob_exp, timeout=2400)]
     # thorough tier: the structure-independent check runs in addition to the specialised one (two independent arguments for the same loop)
     if ctx.thorough or os.environ.get('GV_C10_GENERIC') == '1': obs.append(Ob('inv/generic', inv_generic, timeout=1500))
     return obs + C03.contract_obs(ctx)
